@@ -471,8 +471,9 @@ func evalConstructorDeclareStmt(vm *r.VM, node *syntax.FunctionDeclareStmt) erro
 		return zerr.InvalidClassType(className.GetLiteral())
 	}
 	// ... and to the block that defines it: a constructor written in a method body, branch or
-	// loop body for a type of an enclosing block would outlive that block
-	if !vm.DeclaredInCurrentBlock(className) {
+	// loop body for a type of an enclosing block (under its own name or under another one, e.g.
+	// a parameter) would outlive that block
+	if cmodel.GetDeclBlock() != vm.CurrentBlockID() {
 		return zerr.InvalidClassType(className.GetLiteral())
 	}
 
